@@ -20,7 +20,7 @@ from . import common
 
 ID = "C05"
 LEVEL = "exploration"
-KNOBS = {"p_attempt_timeout": 0.2, "p_hostile": 0.35, "p_default": 0.7, "p_ra": 0.4, "p_budget": 0.25, "p_generous": 0.5, "p_retryable": 0.92,
+KNOBS = {"p_slow_handler": 0.3, "p_sized_strategy": 0.15, "p_attempt_timeout": 0.2, "p_hostile": 0.35, "p_default": 0.7, "p_ra": 0.4, "p_budget": 0.25, "p_generous": 0.5, "p_retryable": 0.92,
          "p_handler": 0.5, "p_before_sleep": 0.6, "p_decisions": 0.35, "p_abort": 0.05, "p_ok": 0.08, "p_per_class": 0.2,
          "p_metric": 0.8, "p_log": 0.8}
 RULE = ("seeded swarm: strategy tables with present/absent entries, context-style and legacy signatures mixed, classifier "
